@@ -1,7 +1,7 @@
 (* C05 - labels, cluster count and per-category counters stay mutually
    consistent over every history of fit / partial_fit calls.  Statements only. *)
 From Coq Require Import List Bool Arith.
-From ART Require Import Num Vec Search Kernel BaseArt BaseArt_proofs BaseArt_book Fuzzy.
+From ART Require Import Num Vec Search Kernel BaseArt BaseArt_proofs BaseArt_book Fuzzy BaseArt_epochs.
 Import ListNotations.
 
 (* one presented sample preserves the book-keeping relation, for every kernel *)
@@ -44,6 +44,21 @@ Theorem C05_counters_total :
   forall (N : Num) (s : st (N:=N)), Inv s ->
     fold_right plus 0 (map (fun c => nth c (wsc s) 0) (seq 0 (length (W s)))) = sc s.
 Proof. exact @counters_total. Qed.
+(* several epochs (fit(X, max_iter > 1)): what the book-keeping is about then - the whole history L of assignments
+   (every sample of every epoch): categories numbered in order of first use in L, counters = histogram of L,
+   sample_counter_ = |L| = epochs * n, labels_ = the last epoch's part of L *)
+Theorem C05_several_epochs_book :
+  forall (N : Num) (K : Kernel N) s X iters veto m eps s' ls,
+    fit_iters K s X iters veto m eps = Some (s', ls) ->
+    exists L, length L = iters * length X /\ Book s' L /\ sc s' = length L /\
+              labels s' = skipn (length L - length X) L /\ length (labels s') = length X.
+Proof. exact @fit_iters_book. Qed.
+Theorem C05_several_epochs_labels_in_range :
+  forall (N : Num) (K : Kernel N) s X iters veto m eps s' ls,
+    fit_iters K s X iters veto m eps = Some (s', ls) ->
+    length (wsc s') = length (W s') /\ Forall (fun l => l < length (W s')) (labels s') /\ sc s' = iters * length X.
+Proof. exact @fit_iters_labels_in_range. Qed.
+Print Assumptions C05_several_epochs_book.
 Print Assumptions C05_reachable.
 Print Assumptions C05_meaning.
 Print Assumptions C05_counters_total.
